@@ -103,6 +103,10 @@ func RunSpin(c PCase) pbt.Outcome {
 						fail("Load(%d) = %d, which nobody ever stored under that key", i&1, v)
 					}
 				case "range":
+					if c.Stable > 1000 && i%40 != 0 {
+						runtime.Gosched() // a Range over a big map is slow: one iteration in 40
+						continue
+					}
 					for j := range seen {
 						seen[j] = 0
 					}
@@ -222,7 +226,7 @@ func RunSpin(c PCase) pbt.Outcome {
 
 var specSpin = pbt.Register(&pbt.Spec[PCase]{
 	Property: "C04", Name: "C04.spin",
-	Rule: "E4 free-spinning, no race detector (speed): 2..6 goroutines with roles {LoadOrStore on shared key 0/1, LoadAndDelete on shared key 0/1, Range, Load, churn of private keys} run 20000..300000 iterations each on one Map with 0..40 stable keys, no barrier between iterations; " +
+	Rule: "E4 free-spinning, no race detector (speed): 2..6 goroutines with roles {LoadOrStore on shared key 0/1, LoadAndDelete on shared key 0/1, Range, Load, churn of private keys} run 20000..300000 iterations each on one Map with 0..40 (one case in eight: 20000 or 40000) stable keys, no barrier between iterations; " +
 		"oracle = invariants of any linearizable map: stable keys are found by every Load and visited exactly once by every Range; values enter a shared key only through a LoadOrStore that stored and leave only through LoadAndDelete, " +
 		"all values unique: each is taken out exactly once or is the final value (nothing lost, nothing resurrected, nothing invented); private keys answer deterministically; never-stored keys are never seen; non-trivial = >=2 goroutines",
 	Gen: func(t *rapid.T) PCase {
@@ -235,6 +239,13 @@ var specSpin = pbt.Register(&pbt.Spec[PCase]{
 			c.Iters = 300000
 		case 1:
 			c.Roles = []string{"los0", "los0", "lad0", "lad0", "churn"}
+			if rapid.Bool().Draw(t, "big") {
+				// a big map (the read map holds more than 2^14 entries) whose dirty map is rebuilt again and again (every
+				// Range promotes) while several goroutines store keys that are new to it
+				c.Roles = []string{"churn", "churn", "churn", "range"}
+				c.Stable = rapid.SampledFrom([]int{20000, 40000}).Draw(t, "bigstable")
+				c.Iters = 20000
+			}
 		default:
 			n := rapid.IntRange(2, 6).Draw(t, "n")
 			for i := 0; i < n; i++ {
